@@ -113,10 +113,10 @@ DoWrite(cl, conn) ==
                      c1 == [cl EXCEPT !.wip = TRUE, !.batch = tk.b, !.wq = tk.r, !.quota = tk.qt, !.wconn = conn,
                                       !.fast = << >>, !.w = w,          \* clear_fast_replies()
                                       !.word = IF conn = 0 THEN @ ELSE @ \o [i \in 1..Len(pubs) |-> pubs[i].op]]
-                     c2 == EmitPkts(c1, conn, w, tk.b)
+                     c2 == Emit(c1, [e |-> "c_write", c |-> conn, w |-> w, nb |-> 1,
+                                     pk |-> [i \in 1..Len(tk.b) |-> tk.b[i].pk]])
                  IN IF conn = 0 THEN c1      \* no connected stream: write_op fails without touching the transport
-                    ELSE Emit(c2, [e |-> "c_write", c |-> conn, w |-> w, nb |-> 1,
-                                   pk |-> [i \in 1..Len(tk.b) |-> tk.b[i].pk]])
+                    ELSE EmitPkts(c2, conn, w, tk.b)
 
 Send(cl, conn, r) == DoWrite([cl EXCEPT !.wq = Append(@, r)], conn)
 
